@@ -261,6 +261,13 @@ func TestOutcomes(t *testing.T) {
 		{`["asm",["set","$.asm.x",1],["get","@.src.a"]]`, `unknown`},
 		{`["asm",["set","$.asm.x",1],["get","$.asm.x"]]`, `1`},
 		{`["asm",["del","$.src.a"],["get","@.src.b"]]`, `true`},
+		// what set returns is not described: nothing may be concluded from it
+		{`["asm",true,["not",["set","$.asm.x",1]]]`, `unknown`},
+		{`["not",["set","$.asm.x",1]]`, `unknown`},
+		{`["asm",["at","src"],["get",["set","$.asm.x",1]]]`, `unknown`},
+		{`["cond",[["set","$.asm.x",1],1]]`, `unknown`},
+		{`["and",["set","$.asm.x",1]]`, `unknown`},
+		{`["sum",1,["set","$.asm.x",1]]`, `unknown`},
 	}
 	for _, c := range cases {
 		root := parse(t, rich).(map[string]any)
